@@ -9,9 +9,10 @@ from tools.harness import c03_pairs
 PROP = 'C03'
 
 MANIFEST = dict(
-    technique='Coq proof about code-shaped observables: the generated (de)serializers of C, C++ and Python are modelled as walkers over '
-              'the SHIPPED primitive models (nunavutSetUxx/GetUxx in both endianness renderings, bitspan members, Python Serializer with an '
-              'explicit round-half-even float16 leaf) wrapped in the epilogue assertions; equality with the wire specification, cross-target '
+    technique='Coq proof about code-shaped observables: the generated (de)serializers of C, C++ and Python are modelled as the TARGET-SHAPED '
+              'walkers (C incl. the little-endian memmove / bulk-copy template paths, C++ bitspan routine, Python Serializer/Deserializer) over '
+              'the SHIPPED primitive models, wrapped in the omit-float build gate and the epilogue assertions; every language option of '
+              'properties.yaml is classified (proved / pairwise only / not exercised) against the regenerated option list; equality with the wire specification, cross-target '
               'agreement, option independence, round trip, re-serialization and des-ser-des stability are DERIVED from the instance '
               'refinement theorems; oracle-free pairwise comparison of the real generated codecs under the option matrix, own-chain round '
               'trips, comparison with the extracted specification and with the extracted code-shaped observables',
@@ -28,7 +29,8 @@ MANIFEST = dict(
          'primitive models of Prims/*.v (C14).  Side conditions of the theorems: whole-byte buffers below 2^64 bits, values within the '
          'generated storage types (storage_ok), top-level composite.  C++ std / allocator flavour / array container do not reach the models '
          '(pairwise runs only).  Python observability limits (no consumed size, one error class, setters reject out-of-range values) are '
-         'respected: such requests are counted as not comparable for that target.  Big-endian hosts are not covered.',
+         'respected: such requests are counted as not comparable for that target.  Big-endian hosts are not covered.  Translators run: '
+         'optguard, c01, codec_tpl (option list, is_zero_cost_primitive, codec template structure are in the cone of Properties/C03.v).',
     design='§5 C03')
 
 TRUSTED = [
